@@ -899,31 +899,58 @@ def lean_format_inventory(rows):
 
 
 def generate_all(bdir, tvals):
-    """everything for NV/Gen/C01.lean beyond the constants; returns (lean text, info dict for the evidence)"""
+    """everything for NV/Gen/C01.lean beyond the constants; returns (lean text, info dict for the evidence).
+    A broken tie is raised only after every part has been tried, with the partial info attached (the plugin's
+    generators still need the efun table to search for a failing input)."""
     tmap = {v: k for k, v in tvals.items() if k.startswith("T_") and k != "T_ANY"}
     ops = parse_defines(os.path.join(bdir, "lib/efuns/efuns_opcode.h"), "F_")
     fmap = {v: k for k, v in ops.items()}
     parts = [LEAN_PRELUDE]
-    info = {}
-    g, desc = extract_guards(bdir, tmap, fmap)
-    parts.append(g)
-    info["guard_sites"] = desc
-    parts.append(extract_stack_geometry(bdir))
-    t, rows = stack_push_inventory(bdir)
-    parts.append(t)
-    info["stack_push_fns"] = rows
-    disp = extract_dispatch(bdir, fmap)
-    erows, allops = efun_table(bdir, tvals)
-    parts.append(lean_efun_tables(erows, allops, disp))
-    info["efuns"] = erows
-    info["dispatch"] = disp
-    inv, fns = format_inventory(bdir)
-    t, trip = lean_format_inventory(inv)
-    parts.append(t)
-    info["format_calls"] = inv
-    info["format_functions"] = fns
-    # last: a missing clamp in error() must not hide the other ties
-    e, einfo = extract_error_fn(bdir)
-    parts.append(e)
-    info["error_fn"] = einfo
+    info = {"guard_sites": [], "stack_push_fns": [], "efuns": [], "dispatch": {}, "format_calls": [], "format_functions": {},
+            "error_fn": {"bufsize": 8192, "indices": []}}
+    broken = []
+
+    def part(fn):
+        try:
+            fn()
+        except TieBroken as e:
+            broken.append(e)
+
+    def p_guards():
+        g, desc = extract_guards(bdir, tmap, fmap)
+        parts.append(g)
+        info["guard_sites"] = desc
+
+    def p_stack():
+        parts.append(extract_stack_geometry(bdir))
+        t, rows = stack_push_inventory(bdir)
+        parts.append(t)
+        info["stack_push_fns"] = rows
+
+    def p_efuns():
+        erows, allops = efun_table(bdir, tvals)
+        info["efuns"] = erows
+        disp = extract_dispatch(bdir, fmap)
+        info["dispatch"] = disp
+        parts.append(lean_efun_tables(erows, allops, disp))
+
+    def p_format():
+        inv, fns = format_inventory(bdir)
+        t, trip = lean_format_inventory(inv)
+        parts.append(t)
+        info["format_calls"] = inv
+        info["format_functions"] = fns
+
+    def p_error():
+        e, einfo = extract_error_fn(bdir)
+        parts.append(e)
+        info["error_fn"] = einfo
+
+    for f in (p_guards, p_stack, p_efuns, p_format, p_error):
+        part(f)
+    if broken:
+        e = broken[0]
+        e.partial_info = info
+        e.all_broken = [b.site for b in broken]
+        raise e
     return "\n".join(parts), info
